@@ -10,7 +10,7 @@ import genrun
 
 
 def check(rep):
-    coq = fw.coq_check("C04", ["SrcBond", "SrcCore", "SrcGen"])
+    coq = fw.coq_check("C04", ["SrcBond", "SrcCore", "SrcGen", "SrcAttach"])
     quick = rep.tier == "quick"
     cases, stats = genrun.collect(rep, 140 if quick else 6000, 12 if quick else 300, max_leaves=150 if quick else 2000,
                                   budget_s=120 if quick else 1500)
